@@ -73,6 +73,51 @@ bspline_deriv(const double *knots, double x, int i, int n, unsigned order)
 	return result;
 }
 
+double
+bspline_on_piece(const double *knots, double x, int i, int n, int piece)
+{
+	double result = 0;
+
+	if (n == 0)
+		return (i == piece ? 1.0 : 0.0);
+
+	/* splines whose support does not contain the piece vanish on it */
+	if (piece < i || piece > i+n)
+		return 0.0;
+
+	if (knots[i+n] != knots[i])
+		result += (x - knots[i])*bspline_on_piece(knots, x, i, n-1, piece) /
+		    (knots[i+n] - knots[i]);
+	if (knots[i+n+1] != knots[i+1])
+		result += (knots[i+n+1] - x)*bspline_on_piece(knots, x, i+1, n-1, piece) /
+		    (knots[i+n+1] - knots[i+1]);
+
+	return result;
+}
+
+double
+bspline_deriv_on_piece(const double *knots, double x, int i, int n, unsigned order, int piece)
+{
+	double result = 0;
+
+	if (n == 0 || piece < i || piece > i+n)
+		return 0.0;
+
+	if (order <= 1) {
+		if (knots[i+n] != knots[i])
+			result += n * bspline_on_piece(knots, x, i, n-1, piece) / (knots[i+n] - knots[i]);
+		if (knots[i+n+1] != knots[i+1])
+			result -= n * bspline_on_piece(knots, x, i+1, n-1, piece) / (knots[i+n+1] - knots[i+1]);
+	} else {
+		if (knots[i+n] != knots[i])
+			result += n * bspline_deriv_on_piece(knots, x, i, n-1, order-1, piece) / (knots[i+n] - knots[i]);
+		if (knots[i+n+1] != knots[i+1])
+			result -= n * bspline_deriv_on_piece(knots, x, i+1, n-1, order-1, piece) / (knots[i+n+1] - knots[i+1]);
+	}
+
+	return result;
+}
+
 /*
  * Evaluates the results of a full spline basis given a set of knots,
  * a position, an order, and a central spline for the position (or -1).
